@@ -8,151 +8,64 @@ from ..facts import keyname, AnchorLost
 from ..flow import flow, deps, deep_strip, strip, show, mentions, fold
 from .util import call_sites, escapes, closure_constructions
 
-CH = "signal_hook::low_level::channel::Channel"
-PAYLOAD = "vroots::Payload"
+from .chan import CH, PAYLOAD, roles, method, CN, PN, word_calls, word_of, cell_accesses, is_take, is_give, primitives
 
 
-def roles(F):
-    a = F.adt(CH)
-    fs = a["variants"][0]["fields"]
-    words = [f["name"] for f in fs if f["ty"] == "core::sync::atomic::Atomic<u16>"]
-    cells = [f["name"] for f in fs if re.match(r"^\[core::cell::UnsafeCell<core::option::Option<T>>; .*\]$", f["ty"])]
-    if len(words) != 2 or len(cells) != 1:
-        raise AnchorLost("channel: two AtomicU16 queue words and one cell array expected, found %s / %s" % (words, cells))
-    return words, cells[0]
+def uncast(e):
+    e = deep_strip(e)
+    while e[0] == "cast":
+        e = deep_strip(e[1])
+    return e
 
 
-def method(F, name, T=PAYLOAD):
-    return F.one("%s::<T>::%s" % (CH, name), name_re=re.escape("::<%s>::%s" % (T, name)) + "$", what="Channel<%s>::%s" % (T, name))
-
-
-def word_of(m, exprs, words):
-    """which queue-word field does the expression (a reference) point to?"""
-    out = set()
-    for e in exprs:
-        e = deep_strip(e)
-        while e[0] in ("ref", "deref"):
-            e = deep_strip(e[1])
-        if e[0] == "field" and e[2] in words and CH in (e[4] or ""):
-            out.add(e[2])
-        else:
-            out.add("?" + show(e))
-    return out
-
-
-def cell_accesses(F, m, cells):
-    """[(bb, term, index exprs)] of UnsafeCell::get on the storage array"""
-    out = []
-    for bb, t in m.calls():
-        if t.get("f") is None or not F.inst[t["f"]].defp.startswith("core::cell::UnsafeCell::<T>::get"):
-            continue
-        for e in flow(m).term_arg(bb, 0):
-            e = deep_strip(e)
-            x = e
-            while x[0] in ("ref", "deref"):
-                x = deep_strip(x[1])
-            if x[0] == "index" and deep_strip(x[1])[0] == "field" and deep_strip(x[1])[2] == cells:
-                out.append((bb, t, x[2]))
-    return out
-
-
-def word_calls(F, m, words):
-    """calls of workspace functions taking a reference to a queue word: [(bb, term, callee, word)]"""
-    out = []
-    for bb, t in m.calls():
-        if t.get("f") is None:
-            continue
-        c = F.inst[t["f"]]
-        if not (c.local and c.body is not None) or not t["args"]:
-            continue
-        w = word_of(m, flow(m).term_arg(bb, 0), words)
-        if len(w) == 1 and not list(w)[0].startswith("?"):
-            out.append((bb, t, c, list(w)[0]))
-    return out
-
-
-def analyse_op(ctx, F, rid, m, body, words, cells, idx_is_param=None, opname=""):
-    """body: the function (or closure) containing the cell access; m: the function taking the index."""
-    acc = cell_accesses(F, body, cells)
+def analyse_op(ctx, F, rid, m0, m, words, cells, opname=""):
+    """m: normal form of send / recv (helpers and closures inlined, queue-word primitives kept as calls)"""
+    acc = cell_accesses(F, m, cells)
     key = "%s:" % opname
     if len(acc) != 1:
-        ctx.bad(rid, key + "one-cell-access", "%s: expected exactly one cell access, found %d" % (opname, len(acc)), body.span); return None
+        ctx.bad(rid, key + "one-cell-access", "%s: expected exactly one cell access, found %d" % (opname, len(acc)), m0.span); return None
     abb, at, idx = acc[0]
-    takes = [(bb, t, c, w) for (bb, t, c, w) in word_calls(F, m, words) if "core::option::Option<u16>" in c.local_ty(0)]
+    wc = word_calls(F, m, words)
+    takes = [(bb, t, c, w) for (bb, t, c, w) in wc if is_take(c)]
     if len(takes) != 1:
-        ctx.bad(rid, key + "one-take", "%s: expected one take from a queue word, found %d" % (opname, len(takes)), m.span); return None
+        ctx.bad(rid, key + "one-take", "%s: expected one take from a queue word, found %d" % (opname, len(takes)), m0.span); return None
     tbb, tt, take_fn, take_word = takes[0]
-    # the index derives from the take
-    def uncast(e):
-        e = deep_strip(e)
-        while e[0] == "cast":
-            e = deep_strip(e[1])
-        return e
 
     def taken_value(e):
-        """is e the payload of the successful take: (take as Some).0, or (Try::branch(take) as Continue).0 ?"""
+        """is e the payload of the successful take: (take as Some).0 ?"""
         e = uncast(e)
         if e[0] != "field":
             return False
         b = uncast(e[1])
-        if b[0] != "downcast":
+        if b[0] != "downcast" or b[2] != "Some":
             return False
         c = uncast(b[1])
-        if c[0] != "call":
-            return False
-        if c[1] == tbb and b[2] == "Some":
-            return True
-        if (c[3] or "").endswith("Try::branch") and b[2] == "Continue":
-            return all(uncast(a)[0] == "call" and uncast(a)[1] == tbb for a in flow(m).term_arg(c[1], 0))
-        return False
+        return c[0] == "call" and c[1] == tbb
 
     def success_fact(facts):
         for (ce, inf, sb) in facts:
             if ce[0] != "discr":
                 continue
             c = uncast(ce[1])
-            if c[0] == "call" and c[1] == tbb and inf == ("eq", 1):
-                return True
-            if c[0] == "call" and (c[3] or "").endswith("Try::branch") and inf == ("eq", 0) and \
-                    all(uncast(a)[0] == "call" and uncast(a)[1] == tbb for a in flow(m).term_arg(c[1], 0)):
+            if c[0] == "call" and c[1] == tbb and (inf == ("eq", 1) or (inf[0] == "ne" and 0 in inf[1] and len(inf[1]) == 1)):
                 return True
         return False
-    if body is m:
-        d = deps(body, [idx])
-        from_take = ("call", tbb) in d
-        on_some = success_fact(facts_at(body, abb))
-    else:
-        d = deps(body, [idx])
-        # closure called by Option::map(take_result, closure): its 2nd parameter is the Some payload
-        mp = [(bb, t) for bb, t in m.calls() if t.get("f") is not None and F.inst[t["f"]].defp == "core::option::Option::<T>::map"]
-        from_take = False
-        for bb, t in mp:
-            a0 = deps(m, flow(m).term_arg(bb, 0))
-            clo = [deep_strip(e) for e in flow(m).term_arg(bb, 1)]
-            is_body = any(e[0] == "agg" and e[1][0] == "closure" and e[1][1] == body.defp for e in clo)
-            if ("call", tbb) in a0 and is_body and ("param", 2) in d and not any(x[0] == "call" for x in d):
-                from_take = True
-        on_some = from_take
+    d = deps(m, [idx])
+    from_take = ("call", tbb) in d
+    on_some = success_fact(facts_at(m, abb))
     ctx.check(from_take and on_some, rid, key + "index-from-successful-take", "%s: the cell index derives from a successful take from `%s`" % (opname, take_word), at["sp"],
               {"index": show(idx), "derives_from_take": from_take, "on_success_branch": on_some})
-    # after the access every path to return gives the same index to the other word
-    if body is m:
-        is_v = taken_value
-    else:
-        is_v = lambda e: uncast(e) == ("param", 2)
-    # the cell index is a function of that value and constants only
-    atoms = {x for x in deps(body, [idx], follow=lambda dd: dd.endswith("Try::branch")) if x[0] in ("call", "param")}
-    atoms = {x for x in atoms if not (x[0] == "call" and (body.term(x[1]).get("def") or "").endswith("Try::branch"))}
-    only_v = atoms <= ({("call", tbb)} if body is m else {("param", 2)})
+    atoms = {x for x in deps(m, [idx], follow=lambda dd: False) if x[0] in ("call", "param")}
+    only_v = atoms <= {("call", tbb)}
     ctx.check(only_v, rid, key + "cell-index-only-from-take", "%s: the cell index depends on the taken index and constants only" % opname, at["sp"], sorted(map(str, atoms)))
-    gives = [(bb, t, c, w) for (bb, t, c, w) in word_calls(F, body, words) if len(t["args"]) == 2]
+    gives = [(bb, t, c, w) for (bb, t, c, w) in wc if is_give(t)]
     good = []
     for (gbb, gt, gc, gw) in gives:
-        ga = flow(body).term_arg(gbb, 1)
-        if ga and all(is_v(e) for e in ga):
+        ga = flow(m).term_arg(gbb, 1)
+        if ga and all(taken_value(e) for e in ga):
             good.append((gbb, gt, gc, gw))
-    r = cfg.reachable_after(body, abb, avoid={g[0] for g in good}, unwind=False)
-    leaks = bool(r & set(body.exits()))
+    r = cfg.reachable_after(m, abb, avoid={g[0] for g in good}, unwind=False)
+    leaks = bool(r & set(m.exits()))
     other = {g[3] for g in good}
     ctx.check(good and not leaks, rid, key + "index-given-back", "%s: every path from the cell access to return hands the same index to a queue word" % opname, at["sp"],
               {"give_calls": [g[1]["sp"] for g in good], "leaking_path": leaks})
@@ -160,25 +73,25 @@ def analyse_op(ctx, F, rid, m, body, words, cells, idx_is_param=None, opname="")
               {"taken_from": take_word, "given_to": sorted(other)})
     # nothing derived from the cell pointer is used once the index has been handed back (the cell may already belong to someone else)
     cell_locals = set()
-    fl = flow(body)
     changed = True
-    dest = body.term(abb).get("dest")
+    dest = m.term(abb).get("dest")
     if dest and not dest["p"]:
         cell_locals.add(dest["l"])
     while changed:
         changed = False
-        for bl in body.blocks:
+        for bl in m.blocks:
             for st in bl["s"]:
-                if st["k"] == "assign" and not st["l"]["p"] and st["l"]["l"] not in cell_locals and _uses(st["r"], cell_locals):
+                if st["k"] == "assign" and not st["l"]["p"] and st["l"]["l"] not in cell_locals and _uses(st["r"], cell_locals) and \
+                        ("&" in m.local_ty(st["l"]["l"]) or "*" in m.local_ty(st["l"]["l"])):
                     cell_locals.add(st["l"]["l"]); changed = True
             t = bl["t"]
             if t["k"] == "call" and t.get("dest") and not t["dest"]["p"] and t["dest"]["l"] not in cell_locals \
-                    and any(_op_uses(a, cell_locals) for a in t["args"]) and ("&" in body.local_ty(t["dest"]["l"]) or "*" in body.local_ty(t["dest"]["l"])):
+                    and any(_op_uses(a, cell_locals) for a in t["args"]) and ("&" in m.local_ty(t["dest"]["l"]) or "*" in m.local_ty(t["dest"]["l"])):
                 cell_locals.add(t["dest"]["l"]); changed = True
     late = []
     for (gbb, gt, gc, gw) in good:
-        for b in cfg.reachable_after(body, gbb, unwind=False, labels=["ret"]):
-            bl = body.blocks[b]
+        for b in cfg.reachable_after(m, gbb, unwind=False, labels=["ret"]):
+            bl = m.blocks[b]
             for st in bl["s"]:
                 if st["k"] == "assign" and (_uses(st["r"], cell_locals) or any(p["k"] == "deref" for p in st["l"]["p"]) and st["l"]["l"] in cell_locals):
                     late.append(st["sp"])
@@ -223,19 +136,16 @@ def rule_a(ctx):
     send = method(F, "send"); recv = method(F, "recv"); new = method(F, "new")
     for x in (send, recv, new):
         ctx.fn(x)
-    rc = [i for i in F.inst if i.kind == "closure" and i.body is not None and i.name == recv.name + "::{closure#0}"]
-    body = rc[0] if rc and not cell_accesses(F, recv, cells) else recv
-    s = analyse_op(ctx, F, rid, send, send, words, cells, opname="send")
-    r = analyse_op(ctx, F, rid, recv, body, words, cells, opname="recv")
-    # new(): which word is pre-filled
-    new_bodies = [new] + [i for i in F.inst if i.kind == "closure" and i.body is not None and i.name.startswith(new.name + "::{closure#")]
-    fills = [(bb, t, c, w) for b in new_bodies for (bb, t, c, w) in word_calls(F, b, words) if len(t["args"]) == 2]
+    ns, nr, nn = CN(F, send), CN(F, recv), CN(F, new)
+    s = analyse_op(ctx, F, rid, send, ns, words, cells, opname="send")
+    r = analyse_op(ctx, F, rid, recv, nr, words, cells, opname="recv")
+    fills = [(bb, t, c, w) for (bb, t, c, w) in word_calls(F, nn, words) if is_give(t)]
     filled = {w for (_, _, _, w) in fills}
     if s and r:
         ctx.check(filled == {s[1]} and r[1] != s[1] and s[3] == r[1] and r[3] == s[1], rid, "directions",
                   "new() fills `%s`; send: %s -> %s; recv: %s -> %s" % (sorted(filled), s[1], s[3], r[1], r[3]), new.span,
                   {"filled_by_new": sorted(filled), "send": (s[1], s[3]), "recv": (r[1], r[3])})
-    return words, cells, s, r, send, recv, body, new
+    return words, cells, s, r, send, recv, nr, new
 
 
 def rule_b(ctx, words, s, r):
@@ -246,29 +156,32 @@ def rule_b(ctx, words, s, r):
                   ">= Release and read >= Acquire", floor=6)
     take_fn = s[0]; give_ids = s[2] | r[2]
     ctx.check(r[0].id == take_fn.id, rid, "same-take-primitive", "send and recv take through the same primitive", take_fn.span, [take_fn.name, r[0].name])
-    for s1 in sites(F, take_fn):
+    for s1 in sites(F, PN(F, take_fn)):
         if s1.op.startswith("compare_exchange"):
             ctx.check(at_least(s1.orders[0], "Acquire", "rmw"), rid, "take:success-ordering", "take: CAS success ordering %s >= Acquire" % s1.orders[0], s1.sp, s1.orders)
             ctx.check(all(not n.startswith("?") for n in s1.orders[1]), rid, "take:failure-ordering", "take: CAS failure ordering constant %s" % s1.orders[1], s1.sp, s1.orders)
     for gid in give_ids:
         g = F.inst[gid]
-        for s1 in sites(F, g):
+        for s1 in sites(F, PN(F, g)):
             if s1.op.startswith("compare_exchange"):
                 ctx.check(at_least(s1.orders[0], "Release", "rmw"), rid, "give:success-ordering", "give: CAS success ordering %s >= Release" % s1.orders[0], s1.sp, s1.orders)
-    # all atomic accesses on u16 words in the channel module
+    # all atomic accesses on u16 words in the channel module (raw frames, and the primitives' normal forms where std RMW helpers such as
+    # fetch_update are opened up)
     n = 0
-    for i in F.inst:
-        if i.body is None or not i.local or not i.name.startswith("signal_hook::low_level::channel::"):
-            continue
+    frames = [i for i in F.inst if i.body is not None and i.local and i.name.startswith(("signal_hook::low_level::channel::", "<signal_hook::low_level::channel::"))]
+    frames += [PN(F, c) for c in primitives(F).values()] + [PN(F, c) for c in primitives(F, PAYLOAD).values()]
+    RMW = ("compare_exchange", "compare_exchange_weak", "fetch_update", "swap", "fetch_add", "fetch_sub", "fetch_and", "fetch_or", "fetch_xor", "fetch_nand", "fetch_max", "fetch_min")
+    for i in frames:
         for s1 in sites(F, i):
             if s1.aty != "u16":
                 continue
-            n += 1
-            okk = s1.op in ("load", "compare_exchange", "compare_exchange_weak")
-            ctx.check(okk, rid, "word-op:%s@%s" % (s1.op, keyname(i.name).split("::")[-1]), "queue word accessed by %s (only loads and CAS are allowed)" % s1.op, s1.sp,
-                      "a plain store/swap/fetch_* on a queue word breaks the release sequence and can lose concurrent updates")
-    if n < 4:
-        raise AnchorLost("fewer than 4 atomic accesses on the queue words")
+            if s1.op in RMW:
+                n += 1
+            okk = s1.op == "load" or s1.op in RMW
+            ctx.check(okk, rid, "word-op:%s@%s" % (s1.op, keyname(i.name).split("::")[-1]), "queue word accessed by %s (only loads and read-modify-write operations are allowed)" % s1.op, s1.sp,
+                      "a plain store on a queue word breaks the release sequence and can lose concurrent updates")
+    if n < 2:
+        raise AnchorLost("fewer than 2 read-modify-write accesses on the queue words")
     # exfiltrator pointer
     SLOT = "signal_hook::iterator::exfiltrator::raw::Slot"
     m = 0
@@ -299,13 +212,14 @@ def rule_c(ctx):
                   [(i["self"], i["preds"]) for i in ims])
 
 
-def rule_d(ctx, send, recv, body, new):
+def rule_d(ctx, send0, recv, body, new):
     F = ctx.F
     rid = "C07.d"
     ctx.rule(rid, "drop discipline: no ptr::read/write/forget/ManuallyDrop/assume_init_read on the payload reachable from the channel's methods; no "
                   "hand-written Drop for Channel and its storage has drop glue; a value not accepted by send is dropped by send", floor=4)
     stop = lambda i: i.defp in ("core::mem::replace", "core::mem::take", "core::mem::swap", "core::option::Option::<T>::take", "core::option::Option::<T>::replace")
-    cone = Cone(F, [send, recv, new], stop=stop)
+    send = CN(F, send0)
+    cone = Cone(F, [send0, recv, new], stop=stop)
     ids = set(cone.parent)
     esc = [e for e in escapes(F, lambda a: PAYLOAD in a, clone_pred=lambda a: False) if e.id in ids]
     ctx.check(not esc, rid, "payload:no-bitwise-moves", "no bitwise read/write/forget of the payload in the channel's cone (%d instances; mem::replace / Option::take trusted)" % len(ids),
@@ -318,7 +232,8 @@ def rule_d(ctx, send, recv, body, new):
     ctx.check(not dimpl and reaches, rid, "channel-drop-glue", "Channel has no hand-written Drop and dropping it drops the payloads still stored", None,
               {"drop_impls": len(dimpl), "glue_reaches_payload": reaches})
     # send: on the "no free slot" outcome the value is dropped by send
-    takes = [bb for bb, t in send.calls() if t.get("f") is not None and "core::option::Option<u16>" in F.inst[t["f"]].local_ty(0) if F.inst[t["f"]].body]
+    words, cells = roles(F)
+    takes = [bb for (bb, t, c, w) in word_calls(F, send, words) if is_take(c)]
     okk = False
     for tb in takes:
         for b in range(send.nblocks()):
@@ -331,10 +246,10 @@ def rule_d(ctx, send, recv, body, new):
                         r = cfg.reachable(send, ne, unwind=False)
                         if any(send.term(x)["k"] == "drop" and not send.term(x)["p"]["p"] and send.term(x)["p"]["l"] == 2 for x in r):
                             okk = True
-    ctx.check(okk, rid, "send:drops-rejected-value", "when no slot is free, send drops the value itself", send.span, None)
+    ctx.check(okk, rid, "send:drops-rejected-value", "when no slot is free, send drops the value itself", send0.span, None)
     # the overwritten cell content is dropped by assignment (Drop terminator on the cell place), not forgotten
     cell_drops = [bb for bb, t in send.drops() if any(p["k"] == "deref" for p in t["p"]["p"]) and "core::option::Option<%s>" % PAYLOAD in t["ty"]]
-    ctx.check(bool(cell_drops), rid, "send:assign-with-drop", "send writes the cell by assignment-with-drop (old content dropped, not overwritten bitwise)", send.span, None)
+    ctx.check(bool(cell_drops), rid, "send:assign-with-drop", "send writes the cell by assignment-with-drop (old content dropped, not overwritten bitwise)", send0.span, None)
 
 
 def run(ctx):
